@@ -23,6 +23,9 @@ type powCircuit struct {
 	X frontend.Variable
 	Y frontend.Variable `gnark:",public"`
 	K int
+	// Hints adds a few hint-bearing constraints (bit decomposition, is-zero), as the real circuits have; it makes
+	// the keys file ~100x larger, so only the monitors that need it switch it on
+	Hints bool
 }
 
 func (c *powCircuit) Define(api frontend.API) error {
@@ -31,9 +34,10 @@ func (c *powCircuit) Define(api frontend.API) error {
 		v = api.Mul(v, v)
 	}
 	api.AssertIsEqual(v, c.Y)
-	// a few hint-bearing constraints (bit decomposition, is-zero), as the real circuits have
-	bits := api.ToBinary(c.Y, 254)
-	api.AssertIsEqual(api.IsZero(api.Add(bits[0], bits[c.K], 1)), 0)
+	if c.Hints {
+		bits := api.ToBinary(c.Y, 254)
+		api.AssertIsEqual(api.IsZero(api.Add(bits[0], bits[c.K], 1)), 0)
+	}
 	return nil
 }
 
@@ -81,8 +85,12 @@ func smallSystem(r *rand.Rand) (*prover.ProvingSystem, int, error) {
 }
 
 // smallSystemK builds an independent system for a fixed circuit size and header.
-func smallSystemK(r *rand.Rand, k int, depth, batch uint32) (*prover.ProvingSystem, int, error) {
-	ccs, err := frontend.Compile(ecc.BN254.ScalarField(), r1cs.NewBuilder, &powCircuit{K: k})
+func smallSystemK(r *rand.Rand, k int, depth, batch uint32, hints ...bool) (*prover.ProvingSystem, int, error) {
+	h := len(hints) > 0 && hints[0]
+	if h {
+		k = -k // negative k marks a hint-bearing circuit for smallProve/smallVerify
+	}
+	ccs, err := frontend.Compile(ecc.BN254.ScalarField(), r1cs.NewBuilder, &powCircuit{K: abs(k), Hints: h})
 	if err != nil {
 		return nil, 0, err
 	}
@@ -93,10 +101,17 @@ func smallSystemK(r *rand.Rand, k int, depth, batch uint32) (*prover.ProvingSyst
 	return &prover.ProvingSystem{TreeDepth: depth, BatchSize: batch, ProvingKey: pk, VerifyingKey: vk, ConstraintSystem: ccs}, k, nil
 }
 
+func abs(k int) int {
+	if k < 0 {
+		return -k
+	}
+	return k
+}
+
 // smallProve proves the trivial statement with ps and returns proof and public witness value.
 func smallProve(ps *prover.ProvingSystem, k int, x *big.Int) (groth16.Proof, *big.Int, error) {
-	y := powValue(x, k)
-	w, err := frontend.NewWitness(&powCircuit{X: x, Y: y, K: k}, ecc.BN254.ScalarField())
+	y := powValue(x, abs(k))
+	w, err := frontend.NewWitness(&powCircuit{X: x, Y: y, K: abs(k), Hints: k < 0}, ecc.BN254.ScalarField())
 	if err != nil {
 		return nil, nil, err
 	}
@@ -105,7 +120,7 @@ func smallProve(ps *prover.ProvingSystem, k int, x *big.Int) (groth16.Proof, *bi
 }
 
 func smallVerify(ps *prover.ProvingSystem, k int, proof groth16.Proof, y *big.Int) error {
-	w, err := frontend.NewWitness(&powCircuit{Y: y, K: k}, ecc.BN254.ScalarField(), frontend.PublicOnly())
+	w, err := frontend.NewWitness(&powCircuit{Y: y, K: abs(k), Hints: k < 0}, ecc.BN254.ScalarField(), frontend.PublicOnly())
 	if err != nil {
 		return err
 	}
